@@ -377,7 +377,35 @@ def usort(name):
     return _sorts[name]
 
 
+_tuple_sorts = {}
+
+
+def tuple_sort(shape):
+    """z3 datatype for a tuple of natively-sorted components"""
+    sorts = tuple(z3sort(s) for s in shape.items)
+    key = tuple(str(x) for x in sorts)
+    if key not in _tuple_sorts:
+        name = "Tup_" + "_".join(k.replace(" ", "").replace("(", "").replace(")", "") for k in key)
+        _tuple_sorts[key] = z3.TupleSort(name, list(sorts))
+    return _tuple_sorts[key]
+
+
+MK_PARTIAL = None
+EMPTY_KW = None
+
+
+def fn_terms():
+    """uninterpreted constructor for functools.partial(fn, **kw) values and the empty-kwargs constant"""
+    global MK_PARTIAL, EMPTY_KW
+    if MK_PARTIAL is None:
+        MK_PARTIAL = z3.Function("mk_partial", usort("Fn"), usort("Kwargs"), usort("Fn"))
+        EMPTY_KW = z3.Const("EMPTY_KWARGS", usort("Kwargs"))
+    return MK_PARTIAL, EMPTY_KW
+
+
 def z3sort(shape):
+    if isinstance(shape, TupleS):
+        return tuple_sort(shape)[0]
     if shape is Int:
         return z3.IntSort()
     if shape is Real:
@@ -411,7 +439,22 @@ def to_term(v, shape):
         return v.t
     if shape is Fn and v.tag == "opaque" and v.sort == "Fn":
         return v.t
+    if shape is Fn and v.tag == "fn":
+        if v.kind == "bound":
+            o = v.obj
+            return z3.Const("method:%s.%s" % (o.name if isinstance(o, Obj) else o, v.name), usort("Fn"))
+        if v.kind == "partial" and not v.args and set(v.kwargs) <= {"**"}:
+            mk, empty = fn_terms()
+            kw = v.kwargs.get("**")
+            return mk(to_term(v.fn, Fn), kw.t if kw is not None else empty)
+    if isinstance(shape, TupleS) and v.tag == "tuple" and len(v.items) == len(shape.items):
+        srt, mk, accs = tuple_sort(shape)
+        return mk(*[to_term(x if not isinstance(x, VUnion) else _single(x), s) for x, s in zip(v.items, shape.items)])
     raise TypeError("value %r does not fit shape %r" % (v, shape))
+
+
+def _single(u):
+    raise TypeError("union inside an abstract container element")
 
 
 def from_term(t, shape):
@@ -429,4 +472,7 @@ def from_term(t, shape):
         return VOpaque(shape.sort, t)
     if shape is Fn:
         return VOpaque("Fn", t)
+    if isinstance(shape, TupleS):
+        srt, mk, accs = tuple_sort(shape)
+        return VTuple([from_term(z3.simplify(a(t)), sh) for a, sh in zip(accs, shape.items)], shape.ntname, shape.fields)
     raise TypeError("no value for shape %r" % (shape,))
